@@ -10,6 +10,12 @@ use signal_hook::low_level::unregister;
 
 pub const FD: c_int = 3;
 
+/// The model cuts a path on which a write sleeps on a full descriptor; the
+/// verdict for that path is taken here.
+pub fn wblock_hook(_fd: c_int) {
+    assert!(false, "C13: the wake-up write could block (neither MSG_DONTWAIT nor O_NONBLOCK)");
+}
+
 #[cfg(kani)]
 pub mod proofs {
     use super::*;
@@ -30,6 +36,7 @@ pub mod proofs {
     fn wake_scenario(kind: FdKind, max_burst: u8) {
         reg::init_globals();
         unsafe { libc::vshim::sync::ARCS::real_drop = true };
+        unsafe { vshim::HOOKS.wblock = wblock_hook };
         let cap: u32 = 3;
         let fill: u32 = kani::any();
         kani::assume(fill <= cap);
